@@ -320,6 +320,9 @@ func writeReplay(prop string, v *symx.Violation, k int) string {
 	return f
 }
 
+// replayingWitness is set while the witnesses of known findings are replayed (no region is excluded then).
+var replayingWitness bool
+
 var resultRe = regexp.MustCompile(`(?m)^VERIF-REPLAY-RESULT: (.*)$`)
 
 // nativeReplay runs the harness natively (go test -overlay) on each replay
@@ -370,7 +373,16 @@ func nativeReplay(files map[string]string, pkgDir string, replays []string, shor
 	}
 	cmd := exec.Command("go", "test", "-vet=off", "-count=1", "-timeout", tmo, "-overlay", ovf, "-run", "^TestVerifReplay$", "-v", pkgDir)
 	cmd.Dir = repoDir
-	cmd.Env = append(os.Environ(), "GOFLAGS=-mod=mod", "GOPROXY=off", "GOSUMDB=off", "GOTOOLCHAIN=local", "GOWORK=off", "VERIF_REPLAY="+strings.Join(replays, ","))
+	var liveIDs []string
+	if !replayingWitness {
+		for id, on := range symx.LiveFindings {
+			if on {
+				liveIDs = append(liveIDs, id)
+			}
+		}
+	}
+	sort.Strings(liveIDs)
+	cmd.Env = append(os.Environ(), "VERIF_LIVE_FINDINGS="+strings.Join(liveIDs, ","), "GOFLAGS=-mod=mod", "GOPROXY=off", "GOSUMDB=off", "GOTOOLCHAIN=local", "GOWORK=off", "VERIF_REPLAY="+strings.Join(replays, ","))
 	out, err := cmd.CombinedOutput()
 	ms := resultRe.FindAllStringSubmatch(string(out), -1)
 	var res []string
@@ -455,6 +467,7 @@ func cmdCheck(args []string) int {
 
 	// 1. known findings: replay the witnesses natively; live ones are announced and their regions excluded
 	live := map[string]bool{}
+	replayingWitness = true
 	for _, kf := range known {
 		if kf.Property != prop || kf.Status != "open" {
 			continue
@@ -469,6 +482,7 @@ func cmdCheck(args []string) int {
 			fmt.Printf("note: known finding %s no longer reproduces (%v %v); it is not used to exclude anything\n", kf.ID, res, err)
 		}
 	}
+	replayingWitness = false
 	symx.LiveFindings = live
 
 	exit := 0
